@@ -350,6 +350,7 @@ ARGS_LOOP:
 		if optPair, is := isOption(iterator.Value(), mode, false); is {
 
 			// iterate over the possible cli args and try matching against expectations
+			passedThrough := false
 			for _, p := range optPair {
 				// handle full option match
 				optionMatches := getAliasNameFromPartialEntry(currentProgramNode, p.Option)
@@ -370,7 +371,11 @@ ARGS_LOOP:
 
 					switch currentProgramNode.unknownMode {
 					case Pass, Warn:
-						currentProgramNode.ChildText = append(currentProgramNode.ChildText, iterator.Value())
+						// A bundled token can hold several unknown options, pass it through only once.
+						if !passedThrough {
+							currentProgramNode.ChildText = append(currentProgramNode.ChildText, iterator.Value())
+							passedThrough = true
+						}
 					}
 					continue
 				}
